@@ -1630,11 +1630,13 @@ impl AggregationState {
                     if old_idx >= self.key_order.len() {
                         continue;
                     }
-                    // Check if this slot has data
-                    let has_data = !self.key_order[old_idx]
-                        .values
-                        .iter()
-                        .all(|v| matches!(v, ScalarValue::Null));
+                    // Check if this slot has data. A group whose key is NULL
+                    // in EVERY column has an all-Null recorded key exactly like
+                    // a free slot, so use the full occupancy test (key, then
+                    // accumulator probe) — the key-only test dropped that
+                    // group's accumulators whenever a later key forced a rehash.
+                    let has_data =
+                        Self::slot_has_data(&self.key_order[old_idx], &self.perfect_accs[old_idx]);
                     if !has_data {
                         continue;
                     }
@@ -2700,10 +2702,10 @@ impl AggregationState {
                     if old_idx >= self.key_order.len() {
                         continue;
                     }
-                    let has_data = !self.key_order[old_idx]
-                        .values
-                        .iter()
-                        .all(|v| matches!(v, ScalarValue::Null));
+                    // Full occupancy test, as in get_or_assign_perfect_index: an
+                    // all-NULL key that saw data is a group, not a free slot.
+                    let has_data =
+                        Self::slot_has_data(&self.key_order[old_idx], &self.perfect_accs[old_idx]);
                     if !has_data {
                         continue;
                     }
